@@ -240,6 +240,8 @@ def run(ctx):
                 g_table = glist([gpair(ser_expr(x, names), ser_expr(y, names)) for x, y in table.items() if x is not y])
             except ValueError:
                 continue
+            for n_ in vnames:
+                names._id("var", n_, n_)          # a variable that occurs only in the text still has an identity
             par_names = [wname(pp) for pp in params]
             vtab = [(n, i) for n, i in names.t["var"].items()]
             case = ("{| k_fl := %s; k_obj := %s; k_par := %s; k_var := %s; k_ty := %s; k_isb := %s; k_simp := %s; "
